@@ -268,8 +268,8 @@ class Check(PropertyCheck):
             "flights (HTTP heads, TLS/DTLS ClientHellos whole/truncated/invalid, QUIC-looking, raw) ; e2e: mode x "
             "connection_strategy x rules x flight x every single cut of short flights + random multi-cuts x script of later "
             "data/close/connect events. distinct = distinct case; non-trivial = rules set and a destination present.")
-    budget = {"quick": 5200, "thorough": 160000}
-    time_budget = {"quick": 30, "thorough": 560}
+    budget = {"quick": 3600, "thorough": 160000}
+    time_budget = {"quick": 18, "thorough": 540}
     fingerprints = ["mitmproxy.addons.next_layer:NextLayer._ignore_connection", "mitmproxy.addons.next_layer:NextLayer._get_host_header",
                     "mitmproxy.addons.next_layer:NextLayer._get_client_hello", "mitmproxy.addons.next_layer:NextLayer._next_layer",
                     "mitmproxy.addons.next_layer:NextLayer._setup_reverse_proxy", "mitmproxy.addons.next_layer:NextLayer._setup_explicit_http_proxy",
@@ -744,7 +744,7 @@ class Check(PropertyCheck):
                 # at which prefix was the decision taken?
                 k = obs.get("decided_at")
                 p = b"".join(flight[: (k + 1) if k is not None else len(flight)])
-                if exp == 1 and stack is not None and not is_relay and len(p) < len(whole) and tls_minimum_pending(p):
+                if len(p) < len(whole) and tls_minimum_pending(p):
                     pass    # "beyond the documented minimum needed to recognise TLS"
                 elif len(p) < len(whole) and req_line_pending(p) and cfg["tcp"]:
                     fails.append(f"seg-dependent: decided on {p!r} (inside the request line): stack {stack}, whole flight {'excluded' if exp else 'not excluded'}")
@@ -894,6 +894,17 @@ class Check(PropertyCheck):
         elif k == "tlsig":
             out.append("tlsig:" + obs["state"])
         return out
+
+    def shrink_candidates(self, case):
+        """generic reductions, but never let a reduced byte string keep the structured intent (the SNI the generator put
+        into the ClientHello) it no longer carries"""
+        from common.check import generic_shrink
+        for c in generic_shrink(case):
+            if isinstance(case.get("intent"), dict) and (c.get("flight") != case.get("flight") or c.get("dc_hex") != case.get("dc_hex")):
+                continue
+            if c.get("kind") == "hh" and c.get("full_hex") != case.get("full_hex"):
+                continue
+            yield c
 
     def neighbours(self, case, rng):
         if case["kind"] == "hh":
